@@ -201,6 +201,16 @@ class Registry:
             return self._fn_cache[target]
         modname, qual = target.split(":")
         mod = importlib.import_module(modname)
+        if qual.endswith("@setter"):
+            obj2: Any = mod
+            owner2 = None
+            for part in qual[: -len("@setter")].split("."):
+                owner2 = obj2 if isinstance(obj2, type) else None
+                obj2 = inspect.getattr_static(obj2, part)
+            if not isinstance(obj2, property) or obj2.fset is None:
+                raise Unsupported(f"{target} is not a property with a setter")
+            self._fn_cache[target] = (obj2.fset, owner2)
+            return obj2.fset, owner2
         if "@" in qual:
             qn, prod = qual.split("@", 1)
             clsname, meth = qn.split(".")
